@@ -259,6 +259,23 @@ func runC19(s *Sim) {
 		s.Step(acts)
 	}
 	_ = lastReadFrom
+	// ---- a consumer that falls far behind: more unread messages than any internal queue holds ----
+	if t.Bool("backlog-of-unread-messages", 1, 12) {
+		nb := Pick(t, "backlog-n", 1100, 1500, 2300)
+		sent := 0
+		for k := 0; k < nb; k++ {
+			id := ids[t.Choose("arr-member", nMem)]
+			n++
+			p := fmt.Sprintf("r|%s|%d", id, n)
+			if mem[id].deliver([]byte(p)) {
+				delivered = append(delivered, p)
+				sent++
+			}
+		}
+		s.Wait()
+		s.Harvest()
+		s.StatN("env.unread-backlog-on-members", sent)
+	}
 	// ---- probe: selections arriving while a Write is held up inside the selected member ----
 	if mode == "event" && nMem > 1 && known && s.Idle(0) && t.Bool("probe-selections-behind-slow-write", 1, 3) {
 		a := cur
